@@ -32,8 +32,8 @@ Ltac split_step Hs w :=
          end.
 Ltac step_cases Hs p w :=
   unfold step, cur in Hs;
-  destruct (procs w p) as [n rf bf] eqn:Es; cbn [pc refused bindfail] in *;
-  pc_cases n Hs 15.
+  destruct (procs w p) as [pcv rf bf] eqn:Es; cbn [pc refused bindfail] in *;
+  pc_cases pcv Hs 15.
 
 (* ---------------------------------------------------------------------------------------------
    the per-process bookkeeping invariant *)
@@ -148,7 +148,7 @@ Lemma pass_probe l w w' r : step l w = Some w' -> pc (procs w r) <= pcProbe -> p
 Proof.
   intros Hs H1 H2. destruct (Nat.eq_dec (label_pid l) r) as [E|N].
   - destruct l as [p|p]; cbn [label_pid] in E; subst p.
-    + split; [reflexivity|]. step_cases Hs r w; fin; try lia; split_step Hs w; injection Hs as <-; fin; rewrite upd_same in H2; fin; lia.
+    + split; [reflexivity|]. step_cases Hs r w; fin; try lia; split_step Hs w; injection Hs as <-; fin; rewrite upd_same in H2; rewrite ?Es in *; fin; lia.
     + exfalso. step_cases Hs r w; try discriminate Hs; fin; lia.
   - rewrite (step_other _ _ _ _ Hs N) in H2. lia.
 Qed.
@@ -216,7 +216,10 @@ Qed.
 (* the premise K is what a solo start reaches after its bind, from a clean or stale socket path *)
 Example K_reached : K 0 (match run (does 0 8) (init Absent) with Some w => w | None => init Absent end)
                  /\ K 0 (match run (does 0 8) (init Stale) with Some w => w | None => init Absent end).
-Proof. split; (unfold K; cbn; repeat split; auto; try lia; intros r Hr; destruct r; [contradiction|cbn; lia]). Qed.
+Proof.
+  split; (unfold K, pcSteps, pcShutUnlink, pcProbe, pcEnd; cbn; repeat split; auto; try lia;
+          try (intros r Hr; destruct r; [contradiction|cbn; lia])).
+Qed.
 
 (* ---------------------------------------------------------------------------------------------
    C16_mutual_exclusion is FALSE of the faithful model (F16a): witnesses by evaluation *)
@@ -307,55 +310,53 @@ Proof.
   destruct l as [p0|p0]; cbn [label_pid] in p; subst p.
   - (* Do p0 *)
     pose proof (Hguard p0 eq_refl) as Hgd.
-    step_cases Hs p0 w; rewrite ?Es in *; fin;
+    step_cases Hs p0 w; fin;
       split_step Hs w;
       try (specialize (Gb p0); rewrite Es in Gb; discriminate Gb);
       try (specialize (Ga p0); rewrite Es in Ga; cbn in Ga; specialize (Ga eq_refl); congruence);
-      injection Hs as <-; fin; unfold G; fin.
-    all: try (assert (Bp : forall r, r <> p0 -> ~ (3 <= pc (procs w r) <= 14))
-                by (apply Other; rewrite Es; reflexivity)).
-    all: repeat split.
-    (* 1: processes >= n untouched *)
-    all: try (intros r Hr; rewrite upd_other by lia; apply Gn; exact Hr).
-    (* 4: nobody failed to bind *)
-    all: try (intros r; destruct (Nat.eq_dec r p0) as [->|Nr]; [rewrite upd_same; reflexivity | rewrite upd_other by exact Nr; apply Gb]).
-    (* 2: exclusion *)
-    all: try (intros a b Nab Ba Bb; apply busy_spec in Ba; apply busy_spec in Bb;
-              destruct (Nat.eq_dec a p0) as [->|Na]; destruct (Nat.eq_dec b p0) as [->|Nb]; try contradiction;
-              rewrite ?upd_same, ?upd_other in Ba, Bb by assumption; fin;
-              first [ apply (Gx a b Nab); apply busy_spec; assumption
-                    | apply (Bp b); assumption | apply (Bp a); assumption
-                    | lia
-                    | (* p0 just passed its probe: everybody else is before its probe or finished *)
-                      idtac ]).
-    (* 3 and 5: the socket facts *)
-    all: try (intros r Hr; destruct (Nat.eq_dec r p0) as [->|Nr];
-              [ rewrite upd_same in Hr; fin; rewrite ?upd_same; first [lia | auto | (split; [congruence|reflexivity])]
-              | rewrite upd_other in Hr by exact Nr; rewrite ?upd_other by exact Nr;
-                first [ exfalso; apply (Bp r Nr); lia
-                      | apply Gs; exact Hr | apply Ga; exact Hr
-                      | destruct (Gs r Hr); split; congruence ] ]).
-    (* what remains: exclusion right after a passed probe *)
-    all: try (exfalso;
-              match goal with
-              | Ba : 3 <= pc (procs w ?x) <= 14, Nx : ?x <> p0 |- _ =>
-                  pose proof (in_danger_false _ (Hgd eq_refl x Nx)) as [D1 D2];
-                  assert (R : pcSteps <= pc (procs w x) <= pcShutUnlink) by (unfold pcSteps, pcShutUnlink; lia);
-                  destruct (Gs x R) as [S1 S2]; unfold answering in An; rewrite S1, S2 in An; discriminate An
-              end).
+      injection Hs as <-; unfold G; fin; rewrite ?Es in *; fin;
+      (* everybody else is before its probe or finished, whenever p0 is busy before or after the step *)
+      try (assert (Bp : forall r, r <> p0 -> ~ (3 <= pc (procs w r) <= 14))
+            by first [ apply Other; reflexivity
+                     | intros r Nr Br; specialize (Hgd eq_refl r Nr); apply in_danger_false in Hgd; destruct Hgd as [D1 D2];
+                       assert (R : 8 <= pc (procs w r) <= 11) by lia;
+                       destruct (Gs r R) as [S1 S2]; unfold answering in An; rewrite S1, S2 in An; discriminate An ]);
+      (split; [|split; [|split; [|split]]];
+      [ intros r Hr; rewrite ?upd_other by lia; apply Gn; exact Hr
+      | intros a b Nab Ba Bb; apply busy_spec in Ba; apply busy_spec in Bb;
+        destruct (Nat.eq_dec a p0) as [Ea|Na]; destruct (Nat.eq_dec b p0) as [Eb|Nb]; try congruence; try subst a; try subst b;
+        try rewrite upd_same in Ba; try rewrite upd_same in Bb; try rewrite upd_other in Ba by assumption; try rewrite upd_other in Bb by assumption; fin;
+        first [ lia | apply (Bp b Nb); assumption | apply (Bp a Na); assumption
+              | apply (Gx a b Nab); apply busy_spec; assumption ]
+      | intros r Hr; destruct (Nat.eq_dec r p0) as [Er|Nr];
+        [ subst r; rewrite ?upd_same in *; fin; first [ lia | split; reflexivity | apply Gs; rewrite Es; fin; lia ]
+        | rewrite ?upd_other in * by exact Nr;
+          first [ exfalso; apply (Bp r Nr); lia | apply Gs; exact Hr ] ]
+      | intros r; destruct (Nat.eq_dec r p0) as [Er|Nr];
+        [ subst r; rewrite upd_same; fin; first [ reflexivity | specialize (Gb p0); rewrite Es in Gb; exact Gb ]
+        | rewrite upd_other by exact Nr; apply Gb ]
+      | intros r Hr; destruct (Nat.eq_dec r p0) as [Er|Nr];
+        [ subst r; rewrite upd_same in Hr; fin; first [ lia | reflexivity ]
+        | rewrite upd_other in Hr by exact Nr;
+          first [ exfalso; apply (Bp r Nr); lia
+                | apply (Ga r); exact Hr
+                | (* a probe (refused) while r sits before its bind: excluded by the guard *)
+                  exfalso; specialize (Hgd eq_refl r Nr); apply in_danger_false in Hgd; lia ] ] ]).
   - (* Exit p0: only at the late unlink; p0 stops being busy *)
-    step_cases Hs p0 w; try discriminate Hs; rewrite ?Es in *; fin; injection Hs as <-; fin; unfold G; fin.
-    assert (Bp : forall r, r <> p0 -> ~ (3 <= pc (procs w r) <= 14)) by (apply Other; rewrite Es; reflexivity).
-    repeat split.
+    step_cases Hs p0 w; try discriminate Hs; fin; injection Hs as <-; unfold G; fin; rewrite ?Es in *; fin.
+    assert (Bp : forall r, r <> p0 -> ~ (3 <= pc (procs w r) <= 14)) by (apply Other; reflexivity).
+    split; [|split; [|split; [|split]]].
     + intros r Hr. rewrite upd_other by lia. apply Gn. exact Hr.
     + intros a b Nab Ba Bb. apply busy_spec in Ba. apply busy_spec in Bb.
-      destruct (Nat.eq_dec a p0) as [->|Na]; [rewrite upd_same in Ba; fin; lia|].
-      destruct (Nat.eq_dec b p0) as [->|Nb]; [rewrite upd_same in Bb; fin; lia|].
-      rewrite upd_other in Ba, Bb by assumption. apply (Gx a b Nab); apply busy_spec; assumption.
-    + destruct (Nat.eq_dec r p0) as [->|Nr]; [rewrite upd_same in H; fin; lia|]. rewrite upd_other in H by exact Nr. apply Gs; exact H.
-    + destruct (Nat.eq_dec r p0) as [->|Nr]; [rewrite upd_same in H; fin; lia|]. rewrite upd_other in H by exact Nr. apply Gs; exact H.
-    + intros r. destruct (Nat.eq_dec r p0) as [->|Nr]; [rewrite upd_same; fin; specialize (Gb p0); now rewrite Es in Gb | rewrite upd_other by exact Nr; apply Gb].
-    + intros r Hr. destruct (Nat.eq_dec r p0) as [->|Nr]; [rewrite upd_same in Hr; fin; lia|]. rewrite upd_other in Hr by exact Nr. apply Ga; exact Hr.
+      destruct (Nat.eq_dec a p0) as [Ea|Na]; [subst a; rewrite upd_same in Ba; fin; lia|].
+      destruct (Nat.eq_dec b p0) as [Eb|Nb]; [subst b; rewrite upd_same in Bb; fin; lia|].
+      rewrite upd_other in Ba by assumption. rewrite upd_other in Bb by assumption. apply (Gx a b Nab); apply busy_spec; assumption.
+    + intros r Hr. destruct (Nat.eq_dec r p0) as [Er|Nr]; [subst r; rewrite upd_same in Hr; fin; lia|].
+      rewrite upd_other in Hr by exact Nr. apply Gs; exact Hr.
+    + intros r. destruct (Nat.eq_dec r p0) as [Er|Nr]; [subst r; rewrite upd_same; fin; specialize (Gb p0); rewrite Es in Gb; exact Gb|].
+      rewrite upd_other by exact Nr. apply Gb.
+    + intros r Hr. destruct (Nat.eq_dec r p0) as [Er|Nr]; [subst r; rewrite upd_same in Hr; fin; lia|].
+      rewrite upd_other in Hr by exact Nr. apply (Ga r); exact Hr.
 Qed.
 
 Lemma G_run n sched : forall w w', L w -> G n w -> grun n sched w = Some w' -> G n w' /\ L w' /\ run sched w = Some w'.
